@@ -1765,7 +1765,17 @@ fn process_dom_node<T: Write>(
                     Some(RenderNode::new_styled(BlockQuote(cs), computed))
                 }),
                 expanded_name!(html "ul") => pending_noempty(input, move |_, cs| {
-                    Some(RenderNode::new_styled(Ul(cs), computed))
+                    // White space between the items (or between the tags of a
+                    // list without items) is not an item.
+                    let cs: Vec<RenderNode> = cs
+                        .into_iter()
+                        .filter(|n| !matches!(&n.info, Text(t) if t.trim().is_empty()))
+                        .collect();
+                    if cs.is_empty() {
+                        None
+                    } else {
+                        Some(RenderNode::new_styled(Ul(cs), computed))
+                    }
                 }),
                 expanded_name!(html "ol") => {
                     let borrowed = attrs.borrow();
